@@ -572,7 +572,7 @@ func TestC01(t *testing.T) {
 		}
 	}
 
-	n := e.Pick(700, 4000)
+	n := e.Pick(700, 2500)
 	maxLen := e.Pick(40, 400)
 	if strings.HasPrefix(filepath.Base(e.Out), "search") {
 		// the driver's search for a concrete failing input after a break: many short histories
